@@ -20,7 +20,8 @@ Proof. exact circ_ok_sound. Qed.
    share a cell or overlap, (3) for every wire all its nets form one figure connected to the driver pin which reaches
    and touches every reader pin, (4) every net end names only a pin of its own wire (and of no other wire), on the
    symbol that stands for the pin's owner, (5) pins of different wires are never drawn at one point, every net is routed
-   and its polyline starts / ends exactly on the pins its ends name *)
+   and its polyline starts / ends exactly on the pins its ends name, (6) the point a symbol computes for a pin lies on the
+   marker the symbol paints for that pin *)
 Theorem C18_check_sound : forall c l, schem_ok c l = true -> SchemOK c l.
 Proof. exact schem_ok_sound. Qed.
 
@@ -64,6 +65,14 @@ Example C18_coincident_pins_not_SchemOK : ~ SchemOK ex_addco_c ex_addco_clash_l.
 Proof. exact ex_addco_clash_not_SchemOK. Qed.
 Example C18_net_off_pin_not_SchemOK : ~ SchemOK ex_addco_c ex_addco_offpin_l.
 Proof. exact ex_addco_offpin_not_SchemOK. Qed.
+
+(* painted markers: a block whose Mux child reads wire b on two inputs is accepted as py4hw draws it; the same picture with pin
+   in1 COMPUTED at the point of in2 (what a pin lookup by wire yields: both nets of b end on in2) satisfies every other clause but
+   contradicts the marker the symbol paints for in1: rejected, not SchemOK *)
+Example C18_dup_accepted : schem_ok ex_dup_c ex_dup_l = true.
+Proof. exact ex_dup_accepted. Qed.
+Example C18_pin_off_its_marker_not_SchemOK : ~ SchemOK ex_dup_c ex_dup_bywire_l.
+Proof. exact ex_dup_bywire_not_SchemOK. Qed.
 
 (* C18-F1 (repaired in /repo by ead5329, switched by fixes/C18_switch.py): the layout py4hw USED TO build for a block that contains
    Reg(d, q, enable=q)  lost the net q -> r.e; kept as a negative example: it is rejected and violates the declarative statement *)
